@@ -24,7 +24,7 @@ string has a scheme: `https`, `http`, `ftp`, `wss:` …) and the decoder `puny` 
 delimiter and empties no label (`PunyClean`, tested on the real codec on every run).  No
 hypothesis on brackets is left: the two regions the former `canonicalize_reparse_partial`
 excluded (`NoOddBracket`, `hbr`) were defects of the implementation (KF-C01-1, KF-C01-2), now
-fixed (FX-C01-USERBRACKETS: a bracket in the userinfo is rejected; FX-C01-IPBRACKETS: a
+fixed (FX-C01-ca9f3e6: a bracket in the userinfo is rejected; FX-C01-feb1ed1: a
 bracketed host keeps its brackets), and that the canonical host of an ip literal still
 passes the bracket check is proved (`Lemmas/BracketHost.lean`).
 -/
@@ -135,7 +135,7 @@ theorem defaultProtocolOk_https : DefaultProtocolOk "https".toList :=
 
 /-- what `canonicalize_url` accepts (everything else raises `ValueError`): the cleaned string
 parses — `urlsplit` and the accessors — to `p`, and the userinfo of `p` holds no bracket
-(FX-C01-USERBRACKETS).  Decidable: `parseUrl` and `userinfoBrackets` are computable. -/
+(FX-C01-ca9f3e6).  Decidable: `parseUrl` and `userinfoBrackets` are computable. -/
 def Accepted (u dp : Str) (p : Parsed) : Prop :=
   parseUrl (Canonicalize.cleanUrl u dp) = some p ∧ userinfoBrackets p.netloc = false
 
